@@ -368,11 +368,13 @@ lys_precompile_uses_augments_refines(struct lysc_ctx *ctx, struct lysp_node_uses
         /* parse the nodeid */
         LY_CHECK_GOTO(ret = lys_nodeid_mod_check(ctx, uses_p->refines[u].nodeid, 0, &mod_set, &nodeid, NULL), cleanup);
 
-        /* try to find the node in already compiled refines */
+        /* try to find the node in already compiled refines of this uses, refines of another (outer) uses of the same
+         * node must be kept separate because they are applied later */
         rfn = NULL;
         for (i = 0; i < ctx->uses_rfns.count; ++i) {
-            if (lys_abs_schema_nodeid_match(ctx->ctx, nodeid, ctx->pmod, ((struct lysc_refine *)ctx->uses_rfns.objs[i])->nodeid,
-                    ctx->pmod)) {
+            if ((((struct lysc_refine *)ctx->uses_rfns.objs[i])->uses_p == uses_p) &&
+                    lys_abs_schema_nodeid_match(ctx->ctx, nodeid, ctx->pmod,
+                    ((struct lysc_refine *)ctx->uses_rfns.objs[i])->nodeid, ctx->pmod)) {
                 rfn = ctx->uses_rfns.objs[i];
                 break;
             }
@@ -1838,13 +1840,16 @@ lys_compile_node_deviations_refines(struct lysc_ctx *ctx, const struct lysp_node
     *dev_pnode = NULL;
     *not_supported = 0;
 
-    for (i = 0; i < ctx->uses_rfns.count; ) {
+    /* the refines of nested uses were added last and must be applied first so that the refines of an outer uses
+     * (which refine the already refined node) have the final say */
+    i = ctx->uses_rfns.count;
+    while (i) {
+        --i;
         rfn = ctx->uses_rfns.objs[i];
 
         if (!lysp_schema_nodeid_match(rfn->nodeid, rfn->nodeid_pmod, NULL, rfn->nodeid_ctx_node, parent, pnode,
                 ctx->cur_mod, ctx->ext)) {
             /* not our target node */
-            ++i;
             continue;
         }
 
@@ -1858,9 +1863,9 @@ lys_compile_node_deviations_refines(struct lysc_ctx *ctx, const struct lysp_node
             LY_CHECK_GOTO(ret = lys_apply_refine(ctx, rfn->rfns[u], rfn->nodeid_pmod, *dev_pnode), cleanup);
         }
 
-        /* refine was applied, remove it */
+        /* refine was applied, remove it and keep the order of the others */
         lysc_refine_free(ctx->ctx, rfn);
-        ly_set_rm_index(&ctx->uses_rfns, i, NULL);
+        ly_set_rm_index_ordered(&ctx->uses_rfns, i, NULL);
 
         /* refines use relative paths so more may apply to a single node */
     }
